@@ -132,7 +132,7 @@ _TRANSLATED = {
     "C03": "SKey::as_equal_slice and the five big-integer formulas (verifier, B, S, client A, client S)", "C04": "check_public_key", "C05": "SrpServer::verify_reconnection_attempt and SrpClient::calculate_reconnect_values",
     "C06": "the six ProofSeed::into_{client,server}_header_crypto functions", "C07": "the Vanilla encrypt / decrypt loop bodies",
     "C08": "the TBC encrypt / decrypt loop bodies", "C09": "Rc4::pseudo_random_generation and Rc4::apply_keystream", "C10": "the Wrath header encoder and decoder (encrypt_server_header, attempt_decrypt_server_header, decrypt_large_server_header, from_small_array, from_large_array)",
-    "C11": "the Vanilla / TBC loop bodies, their eight typed header helpers, two header parsers and eight Read / Write wrappers, and the Wrath encrypt_server_header", "C13": "NormalizedString::new and the four other constructors", "C14": "SKey::as_equal_slice",
+    "C11": "the Vanilla / TBC loop bodies, their eight typed header helpers, two header parsers, eight Read / Write wrappers and the Wrath client's read_and_decrypt_server_header, and the Wrath encrypt_server_header", "C13": "NormalizedString::new and the four other constructors", "C14": "SKey::as_equal_slice",
     "C15": "the positions of the random draws in into_server, verify_reconnection_attempt, calculate_reconnect_values",
     "C16": "pin_to_bytes and remap_pin_grid", "C18": "get_number_at_coordinates, get_matrix_coordinates, generate_coordinates and the RC4 output step",
 }
